@@ -337,6 +337,37 @@ func c13(r *Report) {
 					}
 				}
 				visit(cc, 0)
+				// ... exactly when it is an error: Add on the non-nil edge of its test, on every
+				// path, and never on the nil edge (Add(nil) makes the report non-empty and the
+				// handler dereferences the nil entry)
+				if added {
+					gfn := G(fn)
+					isAdd := func(i ssa.Instruction) bool {
+						a, y := isCall(i, "(*M.MultiError).Add")
+						return y && len(a.Common().Args) > 1 && a.Common().Args[1] == ssa.Value(cc)
+					}
+					okPol := true
+					nt := 0
+					_ = gfn
+					nt = len(nilTests(cc))
+					if nt == 0 {
+						okPol = false
+					}
+					for _, in := range instrs(fn) {
+						if isAdd(in) {
+							dominated := false
+							for _, t := range nilTests(cc) {
+								if blockDominates(t.NonNil, in.Block()) {
+									dominated = true
+								}
+							}
+							if !dominated {
+								okPol = false
+							}
+						}
+					}
+					r.Decide("path", key+" is added when, and only when, it is non-nil", okPol, "Add lies behind the non-nil edge of the result's test", "the test of a child's verification result is inverted or missing: real failures are not reported and a nil is added to the report", cc.Pos())
+				}
 				ok2 := bad == "" && (added || returned)
 				r.Sites++
 				r.Decide("flow", key, ok2, "tested and handed to MultiError.Add (or returned as is)", "a child's verification error is "+bad+" instead of being added to the MultiError: nested failures are wrapped, dropped or duplicated", cc.Pos())
